@@ -44,9 +44,9 @@ DBlock(nb0, v, k) ==
        [] v = "swap"  -> Vft(None, IF nb0 = 2 THEN <<F2, F1>> ELSE base)
        [] OTHER -> Vft(None, [i \in DOMAIN base |-> IF i = k THEN Mutate(base[i], v) ELSE base[i]] \o <<G>>)
 
-M0(extra) == Func("m0", "pub", <<" m0 doc">>, <<ArgC>> \o extra, TNm("u32"), 4096, None, "")
-P0 == Func("p0", "priv", <<>>, <<ArgM>>, TNone, 8192, None, "")
-MD == Func("md", "pub", <<>>, <<ArgM, Arg("v", TNm("i64"))>>, TNone, 12288, None, "fastcall")
+M0(extra) == Func("m0", "pub", <<" m0 doc">>, <<ArgC>> \o extra, TNm("u32"), 262144, None, "")
+P0 == Func("p0", "priv", <<>>, <<ArgM>>, TNone, 327680, None, "")
+MD == Func("md", "pub", <<>>, <<ArgM, Arg("v", TNm("i64"))>>, TNone, 393216, None, "fastcall")
 
 MkInput(ptr, nb0, v, k, b1, b1v, clash, dd, ddv, split) ==
   LET B0 == [TypeDef("B0", "pub", <<Leaf("x0")>>) EXCEPT !.vft = IF nb0 > 0 THEN Vft(None, BaseFuncs(nb0)) ELSE NoVft]
